@@ -35,7 +35,7 @@ def scenarios(tier):
     add('1p3i-1c-batch2-block1-cap2', nprod=1, items=3, ncons=1, consumer='batch', cap=2, batch=2, block=1, depths=(50, 60, 70, 80, 90, 100, 110))
     add('1p1i-2c-get', nprod=1, items=1, ncons=2, consumer='get', cap=0, depths=(40, 50, 60, 70))
     add('2p1i-1c-get', nprod=2, items=1, ncons=1, consumer='get', cap=0, depths=(40, 50, 60, 70, 80))
-    add('2p1i-1c-get-cap1', nprod=2, items=1, ncons=1, consumer='get', cap=1, depths=(40, 50, 60, 70, 80))
+    add('2p1i-1c-get-cap1', nprod=2, items=1, ncons=1, consumer='get', cap=1, depths=(40, 50, 60, 70, 80, 90, 100, 110, 120))
     add('2p21i-1c-batch2-block1-cap1', nprod=2, items=(2, 1), ncons=1, consumer='batch', cap=1, batch=2, block=1, depths=(50, 60, 70, 80, 90, 100, 110))
     add('1p2i-2c-get', nprod=1, items=2, ncons=2, consumer='get', cap=0, depths=(50, 60, 70, 80))
     add('1p1i-2c-batch2-block1', nprod=1, items=1, ncons=2, consumer='batch', cap=0, batch=2, block=1, depths=(40, 50, 60, 70))
